@@ -316,8 +316,30 @@ func (f *Frame) loopHead(li *loopInfo, preds []*ssa.BasicBlock, edges []string) 
 		}
 		nv := vc.fresh(k+"@loop", vc.eng.keySort[k])
 		f.cur.m[k] = nv
-		if k == "alloc" {
+		if k == "alloc" || k == "ghost:dyncalls" {
 			vc.assume(S("<=", f.get(entryState, k), nv))
+		}
+	}
+	// conditional frame of the function (unchanged_unless): an automatic loop
+	// invariant -- as long as the condition has not come true, every key is
+	// still the one the function was entered with (checked on entry because the
+	// entry state is what it is, and at every back edge below)
+	if c, ok := f.unchangedCond(f.cur); ok {
+		for _, k := range mk {
+			if _, known := vc.eng.keySort[k]; known && condFrameKey(k) {
+				vc.assume(Imp(Not(c), S("=", f.get(f.cur, k), f.get(f.entry, k))))
+			}
+		}
+		if ce, ok := f.unchangedCond(entryState); ok {
+			var gs []string
+			for _, k := range mk {
+				if _, known := vc.eng.keySort[k]; known && condFrameKey(k) {
+					gs = append(gs, S("=", f.get(entryState, k), f.get(f.entry, k)))
+				}
+			}
+			if len(gs) > 0 {
+				f.oblige("cond-frame", fmt.Sprintf("loop%d/unchanged-unless/entry", li.n), Imp(Not(ce), And(gs...)), "conditional frame holds when the loop is entered", token.NoPos)
+			}
 		}
 	}
 	for _, k := range mk {
@@ -472,6 +494,18 @@ func (f *Frame) backEdge(li *loopInfo, from *ssa.BasicBlock, cond string) {
 			}
 		}
 	}
+	if c, ok := f.unchangedCond(f.cur); ok {
+		var gs []string
+		for k := range f.vc.loopMods[li.id] {
+			if _, known := f.vc.eng.keySort[k]; known && condFrameKey(k) {
+				gs = append(gs, S("=", f.get(f.cur, k), f.get(f.entry, k)))
+			}
+		}
+		sort.Strings(gs)
+		if len(gs) > 0 {
+			li.addPending(fmt.Sprintf("loop%d/unchanged-unless/preserved", li.n), "cond-frame", Imp(cond, Imp(Not(c), And(gs...))), "conditional frame is kept by the loop body")
+		}
+	}
 	// vacuity: the assumptions along this iteration (invariants, callee
 	// postconditions, frames) must not be contradictory
 	if li.spec != nil && (len(li.spec.Invs) > 0 || len(li.spec.BodyEns) > 0) {
@@ -483,6 +517,30 @@ func (f *Frame) backEdge(li *loopInfo, from *ssa.BasicBlock, cond string) {
 	if li.seenBacks >= len(li.backs) && (li.spec == nil || len(li.spec.BodyRet) == 0) {
 		f.flushLoop(li)
 	}
+}
+
+// condFrameKey: state keys a conditional frame (unchanged_unless) speaks about.
+func condFrameKey(k string) bool {
+	return !(strings.HasPrefix(k, "L:") || strings.HasPrefix(k, "it:") || strings.HasPrefix(k, "lock:") || strings.HasPrefix(k, "ghost:"))
+}
+
+// unchangedCond translates the unchanged_unless condition of the function
+// under verification with the given state as "now" and the function entry as "old".
+func (f *Frame) unchangedCond(st *State) (string, bool) {
+	top := f
+	for top.parent != nil {
+		top = top.parent
+	}
+	if f.parent != nil || top.spec == nil || top.spec.UnchangedUnless == nil {
+		return "", false
+	}
+	env := f.baseEnv(st)
+	tv, err := env.tr(top.spec.UnchangedUnless.Expr)
+	if err != nil {
+		f.vc.errorf("%s:%d: %v", top.spec.UnchangedUnless.File, top.spec.UnchangedUnless.Line, err)
+		return "", false
+	}
+	return tv.T, true
 }
 
 // flushLoop emits the obligations collected so far for one loop.
@@ -858,7 +916,7 @@ func (f *Frame) havocAll(st *State, why string) {
 		olds[k] = old
 		nv := vc.fresh(k+"@havoc", vc.eng.keySort[k])
 		f.set(st, k, nv)
-		if k == "alloc" {
+		if k == "alloc" || k == "ghost:dyncalls" {
 			vc.assume(S("<=", old, nv))
 		}
 	}
